@@ -208,6 +208,11 @@ impl Actor for ProbeFactoryActor {
 /// (draining slots are always busy). op: "resize:<n>" | "ActorTerminated:<slot|stranger>" | "ActorFailed:<slot|stranger>".
 /// Returns "pool_size=<n>;slots=<w>:<d><b><same actor?>+..;index=<entries>/<consistent 0|1>;alive=<actors of the original slots still running>".
 pub async fn pool_step(pool_size: usize, slots: &[String], busy: &[usize], op: &str) -> String {
+    pool_step_q(pool_size, slots, busy, &[], op).await
+}
+
+/// as `pool_step`; the working workers listed in `queued` also have one job (key 7) waiting in their own queue
+pub async fn pool_step_q(pool_size: usize, slots: &[String], busy: &[usize], queued: &[usize], op: &str) -> String {
     use crate::factory::worker::verif_probe as wp;
     let (me, _mh) = Actor::spawn(None, ProbeFactoryActor, ()).await.unwrap();
     let mut pool = HashMap::new();
@@ -219,7 +224,8 @@ pub async fn pool_step(pool_size: usize, slots: &[String], busy: &[usize], op: &
         }
         let working = kind == "drain" || busy.contains(&w);
         let curr: Vec<u64> = if working { vec![5] } else { vec![] };
-        let (rec, _got, _r) = wp::record_logging_at(w, &[], &curr, kind == "drain").await;
+        let q: Vec<u64> = if working && queued.contains(&w) { vec![7] } else { vec![] };
+        let (rec, _got, _r) = wp::record_logging_at(w, &q, &curr, kind == "drain").await;
         worker_by_actor.insert(rec.actor.get_id(), w);
         originals.push((w, rec.actor.get_cell()));
         pool.insert(w, rec);
